@@ -81,12 +81,20 @@ def run(chk):
     class FakeConn(object):
         pass
     per_release = {}
+    shared_ctx = ConnectionContext(protocol_version=757)
+    rng = random.Random(chk.seed)
+    rows = list(rows)
+    rng.shuffle(rows)           # so that the shared context really jumps between versions
     for i, item in enumerate(rows):
         row, payload = item['row'], bytes(item['payload'])
         p, k, d, st = row['p'], row['k'], row['dir'], row['st']
         if p in missing:
             continue
-        ctx = ConnectionContext(protocol_version=p)
+        if i % 2:
+            shared_ctx.protocol_version = p       # a long-lived context re-used across versions, as connect() does
+            ctx = shared_ctx
+        else:
+            ctx = ConnectionContext(protocol_version=p)
         cls = bind[(d, st, k)]
         where = '%s %s/%s at release protocol %d' % (k, d, st, p)
         per_release[p] = per_release.get(p, 0) + 1
